@@ -1,7 +1,9 @@
 use crate::ctx::Ctx;
 
+pub mod c01;
 pub mod c02;
 pub mod c05;
+pub mod c08;
 pub mod c13;
 pub mod c06;
 pub mod c07;
@@ -12,8 +14,10 @@ pub mod c18;
 
 pub fn dispatch(ctx: &mut Ctx) {
     match ctx.prop.as_str() {
+        "C01" => c01::run(ctx),
         "C02" => c02::run(ctx),
         "C05" => c05::run(ctx),
+        "C08" => c08::run(ctx),
         "C13" => c13::run(ctx),
         "C07" => c07::run(ctx),
         "C15" => c15::run(ctx),
